@@ -29,7 +29,7 @@ def sign (d : Domain) (secret hash randomK : Int) : Except Err (Int × Int) :=
   | none => .error .valueError
   | some p1 =>
     match xOf d.curve p1 with
-    | none => .error .attributeError
+    | none => .error .typeError            -- `INFINITY.x()` is `None`, and `None % n` raises TypeError (nonce a multiple of n)
     | some x =>
       let r := x % n
       if r = 0 then .error .rsZero else
